@@ -705,6 +705,24 @@ def transport_follows_options(ctx):
                     ctx.fail("the transport does not use the proxy option currently set on the client", {"history": hist},
                              got, where)
                     break
+        # credentials: the username / password options set on the client are the ones its transport sends - the empty
+        # string is a string (an account without password), not "unset"
+        import base64
+        for user, pw in (("u", "p"), ("", "p"), ("u", ""), ("", "")):
+            c = wsdlkit.client(w, transport=suds.transport.http.HttpAuthenticated())      # (sends Basic credentials)
+            c.set_options(username=user, password=pw)
+            del origin.httpd.seen[:]
+            meta = {"stream": "credentials-follow", "username": user, "password": pw}
+            ctx.case(common.canon(meta), True)
+            try:
+                c.service.f()
+                seen = origin.httpd.seen[-1] if origin.httpd.seen else None
+                got = None if seen is None else c15.hdr(seen, "Authorization")
+            except Exception as e:
+                got = repr(e)
+            want = ["Basic " + base64.b64encode(("%s:%s" % (user, pw)).encode()).decode()]
+            if got != want:
+                ctx.fail("the transport does not use the credentials currently set on the client", meta, got, want)
     finally:
         for srv in (origin, proxy_a, proxy_b):
             srv.close()
